@@ -48,11 +48,11 @@ func (vc *VC) queryText(o *Obligation, withModel bool) string {
 			b.WriteString("\n")
 		}
 	}
-	for _, l := range frameInst {
+	for _, l := range o.Extra {
 		b.WriteString(l)
 		b.WriteString("\n")
 	}
-	for _, l := range o.Extra {
+	for _, l := range frameInst {
 		b.WriteString(l)
 		b.WriteString("\n")
 	}
